@@ -90,6 +90,31 @@ CLAIMS["C14"] = ("exploration", "6.C14",
     "and SQLiteStore.filter returns exactly the query's rows; cli.get_stub builds the stub from the decoded rows in query order with the configured parameters.",
     TRUST + "determinism of shrink_types / stub builders over sets is not proved in this round (bounded only).")
 
+CLAIMS["C11"] = ("exploration", "6.C11",
+    "Bounded: for types over classes spread across modules whose names are dotted / textual suffixes of one another, a class named like its module, nested classes, _io types and anonymous "
+    "TypedDicts at every container position, the stub's import block is executed in an empty namespace, generated classes are registered and every annotation is eval-ed and compared "
+    "structurally with the rendered type (argument / return / yield positions). The text of an annotation (repr of typing objects, regex stripping) is outside the VC generator and both "
+    "solvers' string fragments; the structural half (import completeness, TypedDict replacement) is not under L1 contracts yet.",
+    TRUST + "bounded only; two recorded known findings (same class name from two modules; field types of generated TypedDict classes not imported).")
+
+CLAIMS["C16"] = ("exploration", "6.C16",
+    "Bounded: real apply_stub_using_libcst(..., confine=True) over source shapes (imports at top / after docstrings / after __future__ / inside functions / inside an existing TYPE_CHECKING block, "
+    "import a.b, aliases, star imports) x stubs (new user modules, typing names, names the source already imports, mypy_extensions.TypedDict): first statement, placement of every import on the AST, "
+    "and the result executed in a fresh namespace. The transformer's own contracts (a name is removed only if the ImportItem it denotes is in the move list) are not under L1 yet.",
+    TRUST + "libcst node API and AddImportsVisitor are dependencies; bounded only.")
+CLAIMS["C15"] = ("exploration", "6.C15",
+    "Bounded stand-in (the substance of C15 is libcst's ApplyTypeAnnotationsVisitor, a dependency of several thousand lines outside any VC generator available here; assuming its contract would assume "
+    "the property): run-time contract erase(parse(result)) == erase(parse(source)), existing annotations unchanged unless overwrite, stub annotations present, idempotence, on the real function over "
+    "generated sources x traced subsets x overwrite x k x confinement. Proved glue (under C10/C13): overwrite = (strategy is IGNORE), confine = --pep_563, roles of stub / source, the file is written "
+    "only after a successful application and with exactly the returned text.",
+    TRUST + "bounded only for the transformation itself.")
+CLAIMS["C01"] = ("exploration", "6.C01",
+    "Composition of stage guarantees: the stage contracts are proved under their own properties (C02 per-event tracer contracts, C04 mem / widening of inference and merging, C07 rewriter widening, "
+    "C10 get_stub builds from exactly the decodable rows with the configured k / rewriter / strategy, C13 placement) and re-run by this check (glue: get_stub, monkeytype.trace threading, shrink_types, "
+    "rewriters); the last hypothesis - the rendered text denotes the type - is bounded (C11), so the end-to-end statement is decided by the bounded run: generated module under real tracing, sqlite, "
+    "`monkeytype stub` for k x rewriter x flag sets, every annotation eval-ed in the stub's namespace admits every observed value.",
+    TRUST + "as strong as its weakest stage (C11 text half, bounded); the composition lemma itself is argued in DESIGN.md, not machine-checked.")
+
 NA = {
     "C01": "end-to-end composition: the stage contracts it composes are proved under C02/C04/C07/C10/C13; the composition lemma and the text half (C11) are not built yet",
     "C05": "tightness clauses (witness vocabulary) not built yet",
